@@ -92,9 +92,11 @@ Section BRIDGE.
     end.
 
   (* the link between the two json decoders: stage number i of the in-process chain assigns to every parameter label what
-     the ClickHouse extraction of C07's reference writes for it -- the extracted text, and "" where the line holds nothing
-     under the path.  (The real in-process decoder leaves a label ALONE when the path is missing or the line is not JSON:
-     there the two engines differ, see decoders_differ_on_a_missing_path.)                                              *)
+     the ClickHouse extraction of C07's reference writes for it -- the extracted text where it is not "" and NOTHING where
+     the line holds nothing under the path (missing path, line that is not JSON) or an empty string: since the repairs
+     json-missing-path-overwrites (SQL: mapFilter((k,v) -> v != '', ...)) and json-empty-value-overwrites (in-process
+     walker) both engines leave such a label alone.  What remains a hypothesis is that ClickHouse's JSON functions
+     (json_get) and the in-process decoder read the same text under a path.                                          *)
   Variable parse9 : N -> string -> option IE.lbls.
   Fixpoint decoders_linked (i : N) (ppl : list Logql.stage) : Prop :=
     match ppl with
@@ -103,7 +105,7 @@ Section BRIDGE.
       match s with
       | Logql.PParser Logql.PJson ps =>
         match all_paths ps with
-        | Some paths => forall line, parse9 i line = Some (combine (map pp_label ps) (map (json_get line) paths))
+        | Some paths => forall line, parse9 i line = Some (filter nonempty_kv (combine (map pp_label ps) (map (json_get line) paths)))
         | None => True
         end
       | _ => True
